@@ -15,6 +15,20 @@ not at all on how many goroutines share the verifier (`Input.workers`) - theorem
 harness runs the whole matrix for both values of `named`, and once more with one shared verifier
 under several goroutines (child process), each of which must observe the sequential observation.
 
+Three further dimensions:
+* `rev`, `revSurplus`, `revClient` - the applicable statement ENFORCES revocation and the verifier carries a
+  caller-supplied revocation validator (or the deprecated client) that answers with `chain length + revSurplus`
+  results, all of them OK. `revocationFinalResult` fails closed on every count but the exact one: the verification
+  fails with an outcome (status unknown), it never indexes the chain by result position (`revStep`; theorems
+  `revocation_count_fails_closed`, `revocation_exact_count_accepts`, `rev_surplus_irrelevant_unless_checked`,
+  `rev_client_irrelevant`).
+* `keys`, `deflt`, `names` - `config.SigningKeys.Remove(names...)` on a key list: the names are looked up and
+  deleted ONE AFTER THE OTHER, so a name given twice is a not-found error at its second turn unless the list holds
+  it twice (`removeErr`; theorems `remove_ok_of_distinct_known`, `remove_repeated_name_not_found`,
+  `remove_default_irrelevant`). Entry `.signingKeys`.
+* the shape of a referrer node in a hostile store (subject absent / null / another artifact, target reached through
+  `blobs` / `layers` only, ...) is a SAMPLED dimension (`label`, `data`): `label_data_irrelevant`.
+
 Malformed-input cases (`fuzz := true`: arbitrary bytes offered to a parser-facing entry point)
 are outside what a model can exhibit: for them the model only states the expectation "returns
 normally with a consistent (outcome, error) pair" which the harness samples (DESIGN.md C12).
@@ -86,6 +100,8 @@ inductive Entry
   | hostileStore     -- `ListSignatures` / `FetchSignatureBlob` / `notation.Verify` over a store whose descriptor at
                      -- `site` CLAIMS `claimed` bytes (child process under an allocation budget); modelled:
                      -- is the content of that descriptor asked for at all
+  | signingKeys      -- `(*config.SigningKeys).Remove(names...)` on the key list `keys` with default `deflt`
+                     -- (modelled: does the call report an error); the other methods are sampled around it
   | concurrent       -- one shared object (verifier, trust store, plugin manager, document, cache,
                      -- repository, signer) used by `workers` goroutines at once, in a child process
                      -- (a runtime `fatal error` cannot be recovered; sampled cases only)
@@ -118,6 +134,13 @@ structure Input where
   workers : Nat := 1      -- goroutines using the one object under test at the same time (1 = sequential)
   site : Site := .none    -- hostile-store cases: the descriptor that lies about its size
   claimed : Int := 0      -- ... and the size it claims (any int64, negative included)
+  rev : Bool := false     -- the statement enforces revocation and a caller-supplied validator answers (false: the
+                          -- statement skips revocation, nothing is asked)
+  revSurplus : Int := 0   -- ... with (length of the certificate chain + revSurplus) results, each of them OK
+  revClient : Bool := false -- ... through the deprecated `RevocationClient` instead of `RevocationCodeSigningValidator`
+  keys : List String := []   -- signingKeys cases: the names of the key list, in order (repetitions possible)
+  deflt : Option String := none -- ... its default key name
+  names : List String := []  -- ... the argument list of `Remove`
   fuzz : Bool             -- malformed-input / configuration-sweep case (sampled, not modelled)
   label : String          -- what the sampled case is (configuration, stream); ignored by the model
   data : String           -- hex of the bytes offered to the entry point (sampled cases); ignored by the model
@@ -159,9 +182,18 @@ def verifyWithStmt (g : Guards) (st : Stmt) (manager : Bool) (sig : Sig) : Obs :
       if manager then failWith true
       else if g.pluginManagerNil then failWith true else panic
 
+/-- the revocation validator's answer does not have one result per certificate -/
+def revFails (i : Input) : Bool := i.rev && i.revSurplus != 0
+
+/-- the revocation step, last of the enforcing path: only a verification that passed everything else gets there;
+`revocationFinalResult` fails closed (status unknown, enforced) on a result count other than the chain's length -
+too few AND too many - and reads no result at all in that case -/
+def revStep (i : Input) (o : Obs) : Obs :=
+  if revFails i && !o.panicked && !o.err && o.outcome == some { hasError := false, hasContent := true } then failWith true else o
+
 def vVerify (g : Guards) (i : Input) : Obs :=
   if i.oci == .missing then (if g.vVerifyDocNil then failNoOutcome else panic)
-  else verifyWithStmt g i.oci i.manager i.sig
+  else revStep i (verifyWithStmt g i.oci i.manager i.sig)
 
 /-- the statement the blob lookup yields: asked for WITHOUT a name only the document's global
 statement can apply, and `BlobDocument.Validate` refuses a global statement of level skip - a
@@ -171,7 +203,7 @@ def blobStmt (i : Input) : Stmt :=
 
 def vVerifyBlob (g : Guards) (i : Input) : Obs :=
   if i.blob == .missing then (if g.vVerifyBlobDocNil then failNoOutcome else panic)
-  else verifyWithStmt g (blobStmt i) i.manager i.sig
+  else revStep i (verifyWithStmt g (blobStmt i) i.manager i.sig)
 
 /-- `SkipVerify`: (error, skip) - reported as an Obs with the level outcome when skipped -/
 def skipVerify (g : Guards) (i : Input) : Obs :=
@@ -240,6 +272,15 @@ def hostile (i : Input) : Obs :=
   { panicked := false, err := false, outcome := none, consistent := true,
     fetched := i.site != .none && i.site != .config && withinCap i }
 
+/-- `(*SigningKeys).Remove`: each name in turn - empty: error; not (any more) in the list: error; else its FIRST
+occurrence is deleted. Does the call report an error? -/
+def removeErr : List String → List String → Bool
+  | _, [] => false
+  | ks, n :: ns => n == "" || !ks.contains n || removeErr (ks.erase n) ns
+
+def signingKeys (i : Input) : Obs :=
+  { panicked := false, err := removeErr i.keys i.names, outcome := none, consistent := true }
+
 def runWith (g : Guards) (i : Input) : Obs :=
   if i.fuzz then { panicked := false, err := false, outcome := none, consistent := true }
   else match i.entry with
@@ -253,6 +294,7 @@ def runWith (g : Guards) (i : Input) : Obs :=
     | .nilArgs => nilArgs g
     | .parser => { panicked := false, err := false, outcome := none, consistent := true }
     | .hostileStore => hostile i
+    | .signingKeys => signingKeys i
     | .loader => { panicked := false, err := false, outcome := none, consistent := true }
     | .concurrent => { panicked := false, err := false, outcome := none, consistent := true }
 
@@ -273,7 +315,7 @@ def clauses (i : Input) (o : Obs) : Clauses :=
     ("pair_consistent_as_observed", o.consistent),
     ("no_error_means_outcome_without_error",
       i.fuzz || i.entry == .skipVerify || i.entry == .userMetadata || i.entry == .parser || i.entry == .loader ||
-        i.entry == .concurrent || i.entry == .hostileStore || o.err ||
+        i.entry == .concurrent || i.entry == .hostileStore || i.entry == .signingKeys || o.err ||
         match o.outcome with
         | some oc => !oc.hasError
         | none => false),
